@@ -227,6 +227,14 @@ def generate(rng, opts):
         forms = ["name"] + rng.sample(["path", "strpath", "relstr"], rng.choice([0, 1, 1, 2]))
         for form in forms:
             loads.append({"schedule": sched, "form": form})
+    outside = None
+    if rng.random() < 0.2:
+        # another checkout of the target package in a directory that is *not* on the search path (a user's working
+        # copy next to an installed one); requested by its path from a loader that already served the installed one
+        files = {}
+        _gen_dir(rng, files, len(dirs), "", target, cfg, 1, "regular")
+        dirs.append(files)
+        outside = {"idx": len(dirs) - 1, "first": rng.choice(["name", "name", "path", "none"]), "form": rng.choice(["path", "strpath"]), "schedule": rng.choice(schedules)}
     cfg.pop("_memo", None)
     cfg["conflict_free"] = conflict_free
     # now and then the no-exec oracle is itself checked against a real import in a pristine interpreter
@@ -245,6 +253,7 @@ def generate(rng, opts):
         "other_top": rng.choice(TOP_NAMES + ["nothing_here", "<same>", "<same>"]),
         "sp_order": sp_order,
         "world": {"dirs": dirs, "n_listed": n_listed},
+        "outside": outside,
         "target": target,
         "inspection": rng.random() < 0.35,
         "loads": loads,
@@ -512,7 +521,9 @@ def execute(plan, ctx):
                 with open(fpath, "w") as fh:
                     fh.write("not a directory\n")
                 sps.insert(pos, fpath)
-        oracle_sps = sps + [d for d in w.sp_dirs if d not in sps]
+        outside = plan.get("outside")
+        outside_dir = w.sp_dirs[outside["idx"]] if outside and outside["idx"] < len(w.sp_dirs) else None
+        oracle_sps = sps + [d for d in w.sp_dirs if d not in sps and d != outside_dir]
         target = plan["target"]
         results = []
         old_cwd = os.getcwd()
@@ -607,6 +618,32 @@ def execute(plan, ctx):
                         inv = "O-order"
                     ctx.fail(inv, f"tree differs between load({base[1]}) under {base[0]['schedule']} and load({r[1]}) under {r[0]['schedule']}: {diff}", tags=tags)
                     return
+            # a long-lived loader is then asked, by path, for the copy of the package that lies outside its search path:
+            # that directory is put in front of the search path, and CPython with that path is the reference
+            if outside_dir is not None and os.path.isdir(os.path.join(outside_dir, target)) and not ctx.failures:
+                seam = ListingSeam(w.root, outside["schedule"], None)
+                loader = griffe.GriffeLoader(search_paths=list(sps), allow_inspection=plan["inspection"])
+                spec = os.path.join(outside_dir, target)
+                spec = Path(spec) if outside["form"] == "path" else spec
+                ctx.steps += 1
+                with seam.installed():
+                    try:
+                        if outside["first"] != "none":
+                            inside = [os.path.join(sp, target) for sp in sps if os.path.isdir(os.path.join(sp, target))]
+                            try:
+                                loader.load(Path(inside[0]) if outside["first"] == "path" and inside else target)
+                            except (ImportError, griffe.LoadingError):
+                                pass
+                        top = loader.load(spec, try_relative_path=outside["form"] == "strpath")
+                        tree2 = norm_tree(w, top)
+                    except Exception as e:  # noqa: BLE001
+                        ctx.fail("T-totality", f"load by path of a copy outside the search path raised {type(e).__name__}: {w.norm(str(e))[:200]}", exc=e, tags=tags)
+                        return
+                ctx.probe("copy-outside-search-path-loaded-by-path-after-" + outside["first"])
+                ctx.log("outside", (outside["first"], outside["form"], core.hash_key(tree2)))
+                compare_with_cpython(ctx, w, tree2, target, [outside_dir] + oracle_sps, plan["inspection"], world["dirs"])
+                if ctx.failures:
+                    return
         finally:
             gl.inspect = orig_inspect
             os.chdir(old_cwd)
@@ -662,6 +699,11 @@ def shrink_candidates(plan):
         yield {**plan, "odd_paths": []}
     if plan.get("reuse_loader"):
         yield {**plan, "reuse_loader": False}
+    if plan.get("outside"):
+        o = plan["outside"]
+        yield {**plan, "outside": None, "world": {**world, "dirs": world["dirs"][: o["idx"]]}}
+        if o["first"] != "none":
+            yield {**plan, "outside": {**o, "first": "none"}}
     if plan.get("sp_names"):
         yield {**plan, "sp_names": None}
     if plan.get("sp_order") and plan["sp_order"] != sorted(plan["sp_order"]):
